@@ -176,7 +176,7 @@ pub fn run(ctx: &Ctx) -> EvidenceMeta {
   let subs = all_subs();
   let mut jobs: Vec<Job> = vec![];
   for s in &subs {
-    let n = (ctx.n(3000, 30_000) / s.proto.cost().min(20)).max(150);
+    let n = (ctx.n(8000, 80_000) / s.proto.cost().min(20)).max(300);
     jobs.push(Box::new(move || ctx.prop(s, case(s.proto, s.layer), n)));
   }
   run_jobs(jobs);
